@@ -26,6 +26,20 @@ class SQLParseError(Exception):
 # set by the SQL side when the pipeline being interpreted contains a FULL join rendered for SQLite (which emulates it)
 FULL_JOIN_EMULATION = False
 
+PINF = z3.Real("__plus_infinity__")
+NINF = z3.Real("__minus_infinity__")
+
+
+def _inf_sign(c):
+    v = c.val
+    if z3.is_const(v) and v.decl().kind() == z3.Z3_OP_UNINTERPRETED:
+        n = v.decl().name()
+        if n == "__plus_infinity__":
+            return 1
+        if n == "__minus_infinity__":
+            return -1
+    return 0
+
 
 # ---------------------------------------------------------------------------------------------------------------- lexer
 def lex(sql, dialect="sqlite"):
@@ -223,10 +237,17 @@ class Parser:
         if self.at("OP", "("):
             self.eat()
             if self.at("KW", "SELECT") or (self.at("OP", "(") and self.at("KW", "SELECT", 1)):
-                q = self.select_union()
-                self.eat("OP", ")")
-                alias = self.eat("ID")[1] if self.at("ID") else None
-                return ("sub", q, alias)
+                # "( (SELECT" is either a parenthesised UNION term or a sub-query used as the left operand of a join: try the former first
+                save = self.i
+                try:
+                    q = self.select_union()
+                    self.eat("OP", ")")
+                    alias = self.eat("ID")[1] if self.at("ID") else None
+                    return ("sub", q, alias)
+                except SQLParseError:
+                    if not (self.t[save] == ("OP", "(")):
+                        raise
+                    self.i = save
             left = self.source()
             jt = []
             while not self.at("KW", "JOIN"):
@@ -608,6 +629,13 @@ class Interp:
         null = zor(a.null, b.null)
         if z3.is_true(a.null) or z3.is_true(b.null):
             return Cell(TRUE, FALSE, "b", dc, kf)
+        for x, y, flip in ((a, b, False), (b, a, True)):
+            inf = _inf_sign(y)
+            if inf:
+                # finite value compared with +/- infinity (IEEE specials of the data are outside every claim)
+                o = {"<": ">", ">": "<", "<=": ">=", ">=": "<="}.get(op, op) if flip else op
+                res = {"<": inf > 0, "<=": inf > 0, ">": inf < 0, ">=": inf < 0, "=": False, "<>": True, "!=": True}[o]
+                return Cell(null, z3.BoolVal(res), "b", dc, kf)
         if op == "=":
             v = C.veq(a, b)
         elif op in ("<>", "!="):
@@ -635,6 +663,9 @@ class Interp:
             raise Unmodelled("CAST string AS int")
         if ty in ("FLOAT64", "REAL", "DOUBLE PRECISION", "FLOAT", "DOUBLE"):
             if a.kind == "s":
+                sv = z3.simplify(a.val)
+                if z3.is_string_value(sv) and sv.as_string().lower() in ("+infinity", "infinity", "-infinity"):
+                    return Cell(FALSE, PINF if not sv.as_string().startswith("-") else NINF, "f")
                 raise Unmodelled("CAST string AS float")
             return C.coerce(a, "f")
         raise Unmodelled(f"CAST AS {ty}")
